@@ -226,9 +226,14 @@ def check_proofs(prop):
 # --------------------------------------------------------------------------
 def load_findings():
     p = os.path.join(ROOT, 'known_findings.json')
-    if not os.path.exists(p):
-        return []
-    return json.load(open(p))['findings']
+    out = []
+    if os.path.exists(p):
+        out = list(json.load(open(p))['findings'])
+    # fragments written by slice builders before they are folded into known_findings.json
+    import glob
+    for f in sorted(glob.glob(os.path.join(ROOT, 'findings', '*.json'))):
+        out.extend(json.load(open(f)))
+    return out
 
 
 # --------------------------------------------------------------------------
